@@ -200,6 +200,13 @@ public:
 protected:
   void discretizeEqualProportions();
   void discretizeEqualIntervals();
+
+private:
+  /**
+   * @brief After a copy: the parameters that were constrained by the domain object of the
+   * source distribution become constrained by the domain object of this one.
+   */
+  void tieParametersToOwnDomain_(const IntervalConstraint& sourceDomain);
 };
 } // end of namespace bpp.
 #endif // BPP_NUMERIC_PROB_ABSTRACTDISCRETEDISTRIBUTION_H
